@@ -272,12 +272,25 @@ def build(r, env=None, cc=None):
         m = args[0].negate()
     elif k in ("ccAny", "ccXor", "Stingy"):
         import puan.modules.configurator as ccm
-        if k == "ccAny":
-            m = ccm.Any(*args, default=r.get("default") or None, variable=vid)
+        dflt = r.get("default") or None
+        if dflt and r.get("default_form") == "var":
+            dflt = [puan.variable(d) for d in dflt]                 # the default named by a variable object instead of its id
+        if k in ("ccAny", "ccXor") and r.get("via") == "from_list":
+            m = (ccm.Any if k == "ccAny" else ccm.Xor).from_list(args, variable=vid, **({"default": dflt} if dflt else {}))
+        elif k == "ccAny":
+            m = ccm.Any(*args, default=dflt, variable=vid)
         elif k == "ccXor":
-            m = ccm.Xor(*args, default=r.get("default") or None, variable=vid)
+            m = ccm.Xor(*args, default=dflt, variable=vid)
         else:
             m = ccm.StingyConfigurator(*args, id=vid)
+            if r.get("prequery"):
+                # the object has already answered a structural question before the workload uses it (whatever that may have remembered)
+                try:
+                    q = r["prequery"]
+                    {"flatten": m.flatten, "leafs": m.leafs, "default_prios": lambda: m.default_prios, "ge_polyhedron": lambda: m.ge_polyhedron,
+                     "variables": lambda: m.variables, "to_text": m.to_text, "errors": m.errors}[q]()
+                except Exception:
+                    pass
     else:
         raise KeyError(k)
     if r.get("label") is not None:
